@@ -59,9 +59,9 @@ Proof. exact callable_kind_irrelevant. Qed.
 Print Assumptions C10_callable_kind_irrelevant.
 
 (* the named form gives the same trace, hence the same calls *)
-Theorem C10_forms_agree : forall cfg w v lg sv tag its,
+Theorem C10_forms_agree : forall cfg w v c lg sv tag its,
   w_slots w v = None ->
-  snd (exec_prog cfg w (named_ops v lg sv tag its)) = snd (exec_prog cfg w [OOne lg sv tag its]).
+  snd (exec_prog cfg w (named_ops v lg sv tag its)) = snd (exec_prog cfg w [OOne c lg sv tag its]).
 Proof. exact forms_agree. Qed.
 Print Assumptions C10_forms_agree.
 
@@ -86,7 +86,7 @@ Theorem C10_chain_prefix : forall th lg sv tag pre,
   holds (th (lg_rec lg)) (lg_filter lg) sv = true ->
   exists olds,
     one_chain (ss_construct th lg sv tag) [] pre
-    = ((live (mkRecord sv (rec_tag lg tag) []) (message pre), olds), map Call (calls_of pre)).
+    = ((liveb (mkRecord sv (rec_tag lg tag) []) (message pre) (bad_after false pre), olds), map Call (calls_of pre)).
 Proof. exact one_chain_prefix. Qed.
 Print Assumptions C10_chain_prefix.
 
@@ -115,6 +115,11 @@ Proof. reflexivity. Qed.
 Example C10_ex_enabled :
   filter is_call (exec_one cfg_warn th_err lg_t0 Fatal None [ICall KLambda 1 (B "x"); IStr (B "-"); ICall KStdFunL 2 (B "y"); ICall KFunPtr 1 (B "z")])
   = [Call 1; Call 2; Call 1].
+Proof. reflexivity. Qed.
+(* a callable streamed after an insertion that made the stringstream fail is still called, once; only its text is dropped *)
+Example C10_ex_after_failed_insertion :
+  exec_one cfg_warn init_thresholds lg_t0 Fatal None [ICall KFunctor 1 (B "x"); IFail FNullCStr; ICall KLambda 2 (B "y"); IStr (B "z")]
+  = [Call 1; Call 2; Format (mkRecord Fatal (B "") (B "x")); Sink 0 Fatal (B "5||x"); Sink 1 Fatal (B "5||x")].
 Proof. reflexivity. Qed.
 Example C10_ex_gate_hyp : gate_open Warn Info = false /\ holds (th_err 0) (FThr 0) Warn = false.
 Proof. split; reflexivity. Qed.
